@@ -404,6 +404,22 @@ class K14b(Harness):
                 if not (f["parse_error"] or f["config_error"]):
                     want = sum(len(r.violations) for r in f["rules"])
                     clauses.append(("C14:json_count_%s" % e["file_path"], len(e["violations"]) == want))
+        # the standard output of each analysed file: the counts in its header equal the rows listed below it and the JSON entries
+        import re as _re
+
+        jcount = {e.get("file_path"): len(e.get("violations", [])) for e in (doc or {}).get("files", [])}
+        for text, chan in printed:
+            m = _re.search(r"^File:  (\S+)$", text, _re.M)
+            t = _re.search(r"^Total Violations:\s+(\d+)$", text, _re.M)
+            if chan != "out" or not m or not t or m.group(1) not in files:
+                continue
+            rows = _re.findall(r"^  stub_\d+\s+\|\s+(\S+)\s+\|", text, _re.M)
+            ok = int(t.group(1)) == len(rows)
+            for name, cnt in _re.findall(r"^  (\S+)\s+:\s+(\d+)$", text, _re.M):
+                ok = ok and int(cnt) == sum(1 for x in rows if x == name)
+            if doc is not None and m.group(1) in jcount:
+                ok = ok and jcount[m.group(1)] == len(rows)
+            clauses.append(("C14:printed_counts_equal_rows_%s" % m.group(1), ok))
         # printed blocks in command-line order
         seen = []
         for text, _ in printed:
